@@ -2,9 +2,9 @@ from propdefs.common import *
 
 PROP = {
     "bin": "c12",
-    "coq_targets": ["theories/Flow/C12Check"],
+    "coq_targets": ["theories/Flow/C12Check", "theories/Flow/RDProofs"],
     "n": {"quick": 400, "thorough": 12000},
-    "theorems": [],
+    "theorems": ["rd_sound", "rd_precise", "ud_contains_last_writer", "ud_guards_contain_last_writer", "du_inverse"],
     "rule": "random IL functions (1-6 blocks, <=4 instructions each, loops in 2/3, guarded edges, empty blocks, loads/stores, "
             "injected `x = x - 4`, `z = x + y`, `x = x ^ x`, intrinsics with declared/undeclared/multi-scalar effects in 30%, "
             "unreachable blocks in ~7%), 3 initial states each; non-trivial = >= 4 locations and (multi-read instruction or loop or "
